@@ -59,21 +59,28 @@ Definition fill_extent (o : oracle) (m : grid mark) (x : cell) (r c : nat) (v : 
 Definition is_damaged (m : option mark) : bool :=
   match m with Some MDamaged => true | _ => false end.
 
+Definition is_ignored (m : option mark) : bool :=
+  match m with Some MIgnored => true | _ => false end.
+Definition is_char (x : cell) : bool := match ckind x with KChar _ => true | _ => false end.
+
 Definition pass1_step (o : oracle) (old_g : grid cell) (st : p1) (p : nat * nat) : p1 :=
   let '(r, c) := p in
   match gget old_g r c, gget (p1_front st) r c with
   | Some old, Some new0 =>
       let new := resolve o new0 in
       let front' := gset (p1_front st) r c new in
-      if cell_eqb old new && negb (is_damaged (gget (p1_marks st) r c))
-      then mkp1 (fill_extent o (p1_marks st) new r c MIgnored) front' (p1_cmds st) (p1_imgs st)
+      let mk := gget (p1_marks st) r c in
+      (* a character that is itself covered does not own the columns behind it *)
+      let new_mark := if is_ignored mk && is_char new then MDamaged else MIgnored in
+      if cell_eqb old new && negb (is_damaged mk)
+      then mkp1 (fill_extent o (p1_marks st) new r c new_mark) front' (p1_cmds st) (p1_imgs st)
       else
         let m1 := fill_extent o (p1_marks st) old r c MDamaged in
         let cmds1 := match ckind old with
                      | KImg i => CImageErase i (Some (r, c)) :: p1_cmds st
                      | _ => p1_cmds st
                      end in
-        let m2 := fill_extent o m1 new r c MIgnored in
+        let m2 := fill_extent o m1 new r c new_mark in
         let imgs := match ckind new with
                     | KImg i => (r, c, cface new, i) :: p1_imgs st
                     | _ => p1_imgs st
